@@ -106,7 +106,7 @@ Definition engage (m : sm) (init : option name) (force : bool) : sm * list event
   let m := m <| should := true |> in
   if force || is_none (cur m) || at_default m then
     let s := match init with Some s => s | None => sh_first sh end in
-    if is_state s then (next_state m s, [EvEnter s]) else (m, [EvErr])
+    if is_state s then (next_state m s, (if is_default s then [EvOff] else []) ++ [EvEnter s]) else (m, [EvErr])
   else (m, []).
 
 (* ---- execute(), in phases ------------------------------------------ *)
